@@ -309,8 +309,10 @@ func main() {
 			line := fmt.Sprintf("KNOWN-FINDING: property=%s %s: %s", *prop, f.ID, f.What)
 			fmt.Println(line)
 			knownLines = append(knownLines, line)
-			if f.Exclude != "" {
-				excludes = append(excludes, f.Exclude)
+			for _, x := range strings.Split(f.Exclude, ",") {
+				if x != "" {
+					excludes = append(excludes, x)
+				}
 			}
 		} else {
 			fmt.Printf("note: recorded finding %s no longer reproduces; its generator exclusion is lifted for this run\n", f.ID)
